@@ -8,6 +8,7 @@ import SodiumModel.Spec.Ristretto255
 import SodiumModel.Spec.H2c
 import SodiumModel.Model.Scalar
 import SodiumModel.Model.Scalarmult
+import SodiumModel.Model.LadderRef10
 import SodiumModel.Driver.C06
 namespace Sodium.Driver.C05
 open Sodium Sodium.Model Sodium.Driver Sodium.Spec
@@ -19,11 +20,19 @@ def rcHex : Option Bytes → String
   | none => "-1"
   | some b => s!"0 {toHex b}"
 
-/-! The C05 operations run the MODEL of the C code (`Model/Scalarmult.lean`), instantiated with the
-    specification primitives: the ladder is RFC 7748 `X25519.x25519`, reached through ref10's
-    `has_small_order` early reject and the wrapper's all-zero check. -/
+/-! The C05 operations run the MODEL of the C code: ref10's `has_small_order` early reject, the
+    clamping and the wrapper's all-zero check (`Model/Scalarmult.lean`) around the C-structured
+    Montgomery ladder of x25519_ref10.c (`Model/LadderRef10.lean`: `fe25519_frombytes`, the 255
+    iterations in the statement order of the C code, `fe25519_invert`, `fe25519_tobytes`)
+    instantiated with the specification field `Spec.F25519`.  That this ladder equals RFC 7748
+    `X25519.x25519` on every clamped scalar is `C05Ladder.ref10_ladder_eq_rfc7748`. -/
 open Sodium.Model.Scalarmult in
-def mult : Bytes → Bytes → Option Bytes := mult_ref10 X25519.x25519
+def mult : Bytes → Bytes → Option Bytes := mult_ref10 Sodium.Model.LadderRef10.x25519_ref10
+
+/-- `crypto_scalarmult_curve25519_base`: the model of `crypto_scalarmult_curve25519_ref10_base`
+    (clamp, `ge25519_scalarmult_base`, `edwards_to_montgomery`, `fe25519_tobytes`) over the
+    specification field, with the RFC 8032 base-point multiplication of `Spec/Ed25519.lean` -/
+def base : Bytes → Bytes := Sodium.Model.LadderRef10.x25519_ref10_base
 
 /-- BLAKE2b-512 / BLAKE2b-256 without key (`crypto_generichash` as called by crypto_kx) -/
 def blake512 : Bytes → Bytes := Blake2b.hash 64 [] [] []
@@ -80,12 +89,12 @@ def h2cAlg (alg : String) : Int32 :=
 def handle (op : String) (args : List String) : Option String :=
   match op, args with
   | "x25519", [n, p] => do some (rcOut (Scalarmult.crypto_scalarmult_curve25519 mult (← ofHex n) (← ofHex p)))
-  | "x25519.base", [n] => do some (toHex (X25519.x25519Base (← ofHex n)))
+  | "x25519.base", [n] => do some (toHex (base (← ofHex n)))
   | "box.seed_keypair", [seed] => do
-    let (_, pk, sk) := Scalarmult.crypto_box_seed_keypair sha512 X25519.x25519Base (← ofHex seed)
+    let (_, pk, sk) := Scalarmult.crypto_box_seed_keypair sha512 base (← ofHex seed)
     some s!"{toHex pk} {toHex sk}"
   | "kx.seed_keypair", [seed] => do
-    let (_, pk, sk) := Scalarmult.crypto_kx_seed_keypair blake256 X25519.x25519Base (← ofHex seed)
+    let (_, pk, sk) := Scalarmult.crypto_kx_seed_keypair blake256 base (← ofHex seed)
     some s!"{toHex pk} {toHex sk}"
   | "kx.client", [cpk, csk, spk] => do some (kxLine false (← ofHex cpk) (← ofHex csk) (← ofHex spk))
   | "kx.server", [spk, ssk, cpk] => do some (kxLine true (← ofHex spk) (← ofHex ssk) (← ofHex cpk))
